@@ -26,7 +26,8 @@ def gen_histories(chk, mdl, n):
     r = chk.rng
     texts = uris.valid_texts(mdl, uris.small_texts(3, queries=(None,))) + \
             uris.valid_texts(mdl, uris.small_texts(2, alphabet=uris.SEG_FULL, auths=(None, "//H%41", "//u@[::1]:8", "//1.2.3.4", "//[vF.x]", "//%31.2.3.4", "//[::A:1.2.3.4]"), schemes=(None, "S"), queries=(None, "%7e"), frags=(None, "F"))) + \
-            uris.valid_texts(mdl, uris.small_texts(3, alphabet=["", "..", "a", "b:c"], auths=(None, "//", "//h"), schemes=(None, "s"), queries=(None,)))
+            uris.valid_texts(mdl, uris.small_texts(3, alphabet=["", "..", "a", "b:c"], auths=(None, "//", "//h"), schemes=(None, "s"), queries=(None,))) + \
+            uris.valid_texts(mdl, uris.small_texts(3, alphabet=[".", "..", ":b", ":", "x"], auths=(None,), schemes=(None, "s"), queries=(None,)))
     abs_texts = [t for t in texts if t[:2].lower() == "s:"]
     out = []
     # fixed part: every small reference with dot segments goes through normalize -> resolve -> normalize -> create reference -> make owner
